@@ -533,10 +533,17 @@ func (p *Parser) parseNode(precedence int) ast.Node {
 	if p.err != nil || leftExp == nil {
 		return nil
 	}
+	chain := 0
 	for !p.peekTokenIs(token.SEMICOLON) && precedence < p.peekPrecedence() {
 		infix := p.infixParseFns[p.peekToken.Type]
 		if infix == nil {
 			return leftExp
+		}
+		// Every operator of a chain like a + b + c + ... puts the tree built
+		// so far one level further down, without any recursion here
+		if chain++; p.depth+chain > maxDepth {
+			p.setTokenError(p.peekToken, "exceeded the maximum nesting depth of %d", maxDepth)
+			return nil
 		}
 		if err := p.nextToken(); err != nil {
 			return nil
